@@ -99,6 +99,10 @@ let () = read_lines (fun line ->
   | ["cfgrace"; id; mode; t0] ->
     let tr = M.cfg_drive M.cfixed (mode = "full") (mz_of_string t0) in
     Printf.printf "%s %s\n" id (String.concat " " (List.map string_of_obs tr))
+  | "sfault" :: id :: _ ->
+    (* metadata-store outage: retrying, and dying during the outage, are both admitted (ACoordStoreFail / ACoordCrash);
+       these cases are decided by the monitors on the RPCs that left the coordinator, not by a trace comparison *)
+    Printf.printf "%s *\n" id
   | ["fstore"; id; cut] ->
     (* fixed provider: the write is all-or-nothing; which of the two depends on whether the whole status fits *)
     Printf.printf "%s old|new\n" id
